@@ -62,7 +62,7 @@ def run(ctx):
     # fresh-children kinds: property on the wheel; replay in the model with the recorded trace
     cases = ["conv %s %s" % (k, gen.tt(t)) for t in trees for k in ("lazy", "fresh")]
     py = pywheel.run_py("py27", cases)
-    replays, expect = [], []
+    replays, expect, deferred = [], [], []
     for c, p in zip(cases, py):
         ctx.evaluations += 1
         _, kind, tt = c.split()
@@ -75,9 +75,9 @@ def run(ctx):
         got = " ".join(p.split()[:2])
         ctx.histogram("fresh_outcome", "same" if got == want else "different")
         if got != want:
-            ctx.violation("clvm_tree_to_lazy_node changed the tree of a %s object (children built fresh by every .pair call)" % kind,
-                          {"case": c[:2000], "family": "py27", "runner": "pywheel", "impl": p[:300], "expected": want,
-                           "class": "F3-fresh-children-address-reuse"})
+            deferred.append(("clvm_tree_to_lazy_node changed the tree of a %s object (children built fresh by every .pair call)" % kind,
+                             {"case": c[:2000], "family": "py27", "runner": "pywheel", "impl": p[:300], "expected": want,
+                              "class": "F3-fresh-children-address-reuse"}))
         mm = re.search(r" root=(\d+) trace=(\S+)$", p)
         if kind == "fresh" and mm:
             replays.append("replay %d %s %s %s" % (1 if keepalive else 0, mm.group(1), mm.group(2), tt))
@@ -90,6 +90,10 @@ def run(ctx):
             bad.append((c, a, b))
     ctx.dist.setdefault("families", {})["py27-replay:wheel"] = {"cases": len(replays), "disagreements": len(bad)}
     pywheel.record_broken(ctx, "py27-replay", bad)
+    # the F3 class is reported last (smallest inputs first) so that any other failure gets the replay files
+    deferred.sort(key=lambda d: len(d[1]["case"]))
+    for what, rep in deferred[:20]:
+        ctx.violation(what, rep)
 
 
 def _source_keepalive():
